@@ -43,8 +43,10 @@ ArgsOf(b) == [kind |-> KindOf(b.args), ps |-> b.args.ps, alphaType |-> b.args.al
 InfoOK(s, e) ==
     CASE e.k = "call" -> e.sw = s.c.sw /\ e.sh = s.c.sh /\ e.dw = s.c.dw /\ e.dh = s.c.dh
       [] e.k = "crop_box" -> \A i \in 1 .. 4 : IsFinite(e.d[i]) /\ DyEq(DyMulInt(DyOf(e.d[i]), s.c.Q), DyFromInt(s.c.box[i]))
+      \* C03: every index the portable u8 kernels used for their 1280-entry clip table
+      [] e.k = "clip_range" -> e.lo >= 0 /\ e.hi < 1280
       [] OTHER -> TRUE
-IsInfo(e) == e.k \in {"call", "crop_box", "ss_factor"}
+IsInfo(e) == e.k \in {"call", "crop_box", "ss_factor", "clip_range"}
 
 \* with unknown buffer lengths (after a rejected case) the logged lengths are adopted
 AdoptBuf(s, buf, len) == IF s.bufs[buf] = -1 THEN [s EXCEPT !.bufs = [s.bufs EXCEPT ![buf] = len]] ELSE s
@@ -97,7 +99,7 @@ Verdict(e) ==
         canRet == Ok(st, retEv)
         fin == IF canRet THEN Upd(st, retEv) ELSE st
         pipe == "pipeline" \in ToSet(cs.chk)
-    IN  IF pipe /\ pbad # "" THEN pbad
+    IN  IF (pipe \/ "clip" \in ToSet(cs.chk)) /\ pbad # "" THEN pbad
         ELSE IF pipe /\ ~canRet THEN "returned-at-" \o st.pc
         ELSE IF pipe /\ ~ResultOK(fin) THEN "result"
         ELSE IF pipe /\ fin.ret = "ok" /\ e.ret # "ok" THEN "returned-" \o e.ret
